@@ -32,6 +32,10 @@ structure WfIP (qKQ byQid : List (Nat × Nat)) (all : List Nat) (lc : List (List
   allNodup : all.Nodup
   allIdx : ∀ k ∈ all, k ∈ byQid.map (·.2)
   lcOk : ∀ l ∈ lc, l.Nodup ∧ ∀ k ∈ l, k ∈ byQid.map (·.2)
+  /-- a key is in at most one of `all_queries` and the lists being walked -/
+  disj : (all ++ lc.flatten).Nodup
+  /-- every linked query is in `all_queries` or in a list being walked by `ares_cancel` / `ares_destroy` -/
+  nl : ∀ k ∈ byQid.map (·.2), k ∈ all ∨ ∃ l ∈ lc, k ∈ l
 
 /-- the by-timeout index (and the keys waiting to enter it) refer to linked queries that have a connection -/
 structure WfTP (qKC : List (Nat × Option Nat)) (idx bt po : List Nat) : Prop where
@@ -59,6 +63,8 @@ structure WfSP (servers : List SSk) (cF4 : List (Nat × Bool × Nat × Bool)) : 
   connsNodup : ∀ v ∈ servers, v.conns.Nodup
   conns : ∀ v ∈ servers, ∀ fd ∈ v.conns, ∃ t, (fd, false, v.id, t) ∈ cF4
   tcp : ∀ v ∈ servers, ∀ fd, v.tcpConn = some fd → (fd, false, v.id, true) ∈ cF4
+  /-- a connection that has not been unlinked is on its server's list -/
+  linked : ∀ fd srv t, (fd, false, srv, t) ∈ cF4 → ∃ v ∈ servers, v.id = srv ∧ fd ∈ v.conns
 
 structure WfKP (cl : List KSk) (nextClient : Nat) : Prop where
   nodup : (cl.map (·.id)).Nodup
@@ -185,8 +191,28 @@ def exId : Call → Option Nat
   | .runActs id _ => some id
   | _ => none
 
+/-- level by level, the lists of the first stack are included in those of the second -/
+inductive LcSub : List (List Nat) → List (List Nat) → Prop
+  | nil : LcSub [] []
+  | cons {l' l : List Nat} {t' t : List (List Nat)} : (∀ k ∈ l', k ∈ l) → LcSub t' t → LcSub (l' :: t') (l :: t)
+
+/-- progress of the requests between two states; `xt` is the token of a callback that is in flight (its query has
+    been unlinked, the callback has not run yet) -/
+structure ProgS (xt : Option Nat) (a a' : Sk) : Prop where
+  /-- callbacks made stay made -/
+  doneMono : ∀ t ∈ a.doneToks, t ∈ a'.doneToks
+  /-- the lists being walked by `ares_cancel` / `ares_destroy` frames only lose keys -/
+  lcRel : LcSub a'.listCopy a.listCopy
+  allNew : ∀ k ∈ a'.all, k ∈ a.all ∨ a.nextKey ≤ k
+  keysLt : (∀ p ∈ a.qKO, p.1 < a.nextKey) → ∀ p ∈ a'.qKO, p.1 < a'.nextKey
+  /-- a query that is still linked is the same query (keys are not reused, owners do not change) -/
+  ownKeep : (∀ p ∈ a.qKO, p.1 < a.nextKey) → ∀ p ∈ a.qKO, p.1 ∈ a'.idx → p ∈ a'.qKO
+  /-- a request of the application that is no longer linked has had its callback -/
+  done6 : (∀ p ∈ a.qKO, p.1 < a.nextKey) → ∀ p ∈ a.qKO, p.1 ∈ a.idx → p.1 ∉ a'.idx →
+    ∀ tok, p.2 = .user tok → tok ∈ a'.doneToks ∨ some tok = xt
+
 /-- what every procedure guarantees about the pair (state before, state after) -/
-structure StepS (xf xi : Option Nat) (d : Nat → Nat) (a a' : Sk) : Prop where
+structure StepT (xf xi xt : Option Nat) (d : Nat → Nat) (a a' : Sk) : Prop where
   /-- no safety fault is recorded -/
   faults : a'.faults = a.faults
   kMono : a.nextClient ≤ a'.nextClient
@@ -199,12 +225,28 @@ structure StepS (xf xi : Option Nat) (d : Nat → Nat) (a a' : Sk) : Prop where
   orphan : ∀ id, id < a.nextClient → some id ≠ xi → a.NoSub id → a'.NoSub id
   /-- a compound request for which an outer frame will still start sub-requests is not completed -/
   debtAlive : ∀ id, a.Active id → 0 < d id → a'.Active id
+  prog : ProgS xt a a'
+
+/-- the relation with no callback in flight -/
+abbrev StepS (xf xi : Option Nat) (d : Nat → Nat) (a a' : Sk) : Prop := StepT xf xi none d a a'
+
+/-- the walk of `ares_cancel` (`fromAll = false`) / `ares_destroy` has nothing left to do -/
+def cancelHead (s : St) (fromAll : Bool) : Option Nat :=
+  if fromAll then s.all.head? else (s.listCopy.head?).bind (·.head?)
 
 /-- call-specific postconditions -/
 def Post (s : St) (r : St × Ret) : Call → Prop
   | .flush _ => r.1.sk = s.sk
   | .requeue key _ _ _ _ =>
       ∀ fd q, (fd, true, q) ∈ s.sk.cFUQ → ∀ q', (fd, q') ∈ r.1.sk.cFQ → key ∉ q'
+  | .userCb tok _ _ _ _ => tok ∈ r.1.sk.doneToks
+  | .callback (.user tok) _ _ _ _ => tok ∈ r.1.sk.doneToks
+  | .cancelLoop _ fromAll => cancelHead r.1 fromAll = none
+  /- with no query linked, closing a connection removes it and touches nothing else (`ares_destroy`) -/
+  | .closeLoop fd _ => s.sk.idx = [] → r.1.sk.cFUQ = s.sk.cFUQ.filter (fun x => x.1 != fd) ∧ r.1.sk.idx = []
+  | .closeConn fd _ => s.sk.idx = [] → r.1.sk.cFUQ = s.sk.cFUQ.filter (fun x => x.1 != fd) ∧ r.1.sk.idx = []
+  /- `ares_cancel`: every request of the application that was in `all_queries` has had its callback -/
+  | .cancel => ∀ k ∈ s.sk.all, ∀ tok, (k, Owner.user tok) ∈ s.sk.qKO → tok ∈ r.1.sk.doneToks
   | _ => True
 
 structure Good (d : Nat → Nat) (c : Call) (s : St) (r : St × Ret) : Prop where
